@@ -20,15 +20,15 @@ namespace NoKV.Props.C30
 open NoKV NoKV.Client
 
 /-- **Embedded deployment (headline).**  With conflict detection reaching `NoKV.Open`
-(`DetectConflicts = true`): for every initial value, every number of clients with any command
+(`DetectConflicts = true`) and every read of `Txn.Get` recorded in the read set: for every initial value, every number of clients with any command
 lists and every interleaving of their steps, in every reachable state the counter equals its
 initial value plus the sum of the deltas of the INCR-family commands that replied OK, and at
 most one SET NX on the initially absent key has replied OK. -/
-theorem C30_embedded (c : RedisCfg) (hc : c.detectConflicts = true) (v : Int) (progs : List (List Cmd))
+theorem C30_embedded (c : RedisCfg) (hc : c.detectConflicts = true ∧ c.trackGet = true) (v : Int) (progs : List (List Cmd))
     (sched : List Nat) :
     (rrun c .embedded (RState.start v progs) sched).ctr = v + (rrun c .embedded (RState.start v progs) sched).okSum ∧
     (rrun c .embedded (RState.start v progs) sched).nxOk ≤ 1 := by
-  have inv := RInv.run (c := c) (m := .embedded) hc sched (RInv.start v progs)
+  have inv := RInv.run (c := c) (m := .embedded) (by simp [RedisCfg.detects, hc.1, hc.2]) sched (RInv.start v progs)
   have h0 := rrun_init0 c .embedded sched (RState.start v progs)
   refine ⟨?_, inv.nxo⟩
   rw [inv.sum, h0]; rfl
@@ -57,10 +57,10 @@ theorem C30_fails_asis_embedded (c : RedisCfg) (hc : c.detectConflicts = false) 
     (rrun c .embedded (RState.start 0 lostIncr) lostSched).okSum = 2 ∧
     (rrun c .embedded (RState.start 0 lostIncr) lostSched).ctr = 1 ∧
     (rrun c .embedded (RState.start 0 twoSetNX) lostSched).nxOk = 2 := by
-  obtain ⟨a, b⟩ := c
+  obtain ⟨a, b, t⟩ := c
   simp only at hc
   subst hc
-  cases b <;> decide
+  cases b <;> cases t <;> decide
 
 /-- Raft backend, as-is (value read at t1, prewrite at a fresh start ts > t1, commit = start+1):
 client 0 reads at 1, client 1 reads at 2, client 0 writes (start 3, commit 4), client 1 writes
@@ -69,10 +69,10 @@ theorem C30_fails_asis_raft (c : RedisCfg) (hc : c.raftConflictFromReadTs = fals
     (rrun c .raft (RState.start 0 lostIncr) lostSched).okSum = 2 ∧
     (rrun c .raft (RState.start 0 lostIncr) lostSched).ctr = 1 ∧
     (rrun c .raft (RState.start 0 twoSetNX) lostSched).nxOk = 2 := by
-  obtain ⟨a, b⟩ := c
+  obtain ⟨a, b, t⟩ := c
   simp only at hc
   subst hc
-  cases a <;> decide
+  cases a <;> cases t <;> decide
 
 /-! ### non-vacuity -/
 
